@@ -6,6 +6,7 @@ import (
 	"math/rand"
 	"sort"
 	"strings"
+	"time"
 
 	"github.com/reusee/sb"
 )
@@ -144,6 +145,9 @@ func (s *sinkSpec) build(rc *recorder) sb.Sink {
 			rc.record(s.id, t)
 			n++
 			if n >= s.k {
+				if s.id%2 == 0 {
+					return sink, errInjected // a fault reported together with a continuation: the error still ends the run
+				}
 				return nil, errInjected
 			}
 			if t.Invalid() {
@@ -661,6 +665,8 @@ func descLog(a []*sb.Token) string {
 	return strings.Join(xs, " ")
 }
 
+var copyLeaked int
+
 func famStreams(dir string, seed int64, tier string) {
 	thorough := tier == "thorough"
 	repC := newReport("copy", seed, tier)
@@ -691,9 +697,19 @@ func famStreams(dir string, seed int64, tier string) {
 		for _, s := range sinks {
 			built = append(built, s.build(rc))
 		}
-		err := guard(func() error { return sb.Copy(&counting, built...) })
+		if copyLeaked >= 2 {
+			return // two runs of Copy did not return (reported): each keeps a goroutine spinning, start no more
+		}
+		err := withWatchdog(5*time.Second, &copyLeaked, func() error {
+			return guard(func() error { return sb.Copy(&counting, built...) })
+		})
 		repC.Evaluations++
 		desc := tag + " src=" + src.coq() + " sinks=" + coqSinks(sinks)
+		if classOf(err) == "EDiverge" {
+			repC.violate("C14", "copy-diverges", "Copy did not return within 5 s", desc)
+			repC.violate("C15", "sink-fault-lost", "Copy did not return within 5 s (a failing sink stays installed)", desc)
+			return
+		}
 		repC.count("class:" + classOf(err))
 		repC.count(fmt.Sprintf("nsinks:%d", len(sinks)))
 		// ---- direct oracles (C14 / C15) on plain configurations ----
@@ -1031,7 +1047,9 @@ func famStreams(dir string, seed int64, tier string) {
 		}
 		wP.add(fmt.Sprintf("ProcCase %s %s %s %s", p.coq(), coqTokens(ts), classOf(err), coqLogs(rc)), desc, p.kind != "tokens")
 	}
-	streamsSharedToken(repC)
+	streamsSharedToken(repC, "C14", "C13")
+	apiFilterStale(repP)
+	apiSinkFaultWithCont(repC)
 	streamsMarshalFaults(repP)
 	apiCompareFaults(repP, r, 200)
 	streamsDerefSubFault(repP)
